@@ -3,6 +3,7 @@ package harness
 import (
 	"fmt"
 	"sort"
+	"verifsim/wire"
 )
 
 // C01 — inbound application messages reach the application in order, exactly once.
@@ -17,9 +18,10 @@ func init() {
 }
 
 type c01ev struct {
-	n    int
-	app  *AppCall
-	st   *StoreCall
+	n   int
+	app *AppCall
+	st  *StoreCall
+	in  int // MsgSeqNum of an inbound frame as logged (0: not an inbound-frame event, -1: no readable number)
 }
 
 // CheckC01 evaluates the monitor over everything recorded so far.
@@ -35,14 +37,32 @@ func CheckC01(env *Env, eng *Engine) (deliveries int) {
 			evs = append(evs, c01ev{n: calls[i].N, st: &calls[i]})
 		}
 	}
+	eng.LF.mu.Lock()
+	for i, b := range eng.LF.In {
+		seq := -1
+		if m, err := wire.Scan(b); err == nil {
+			seq = m.IntOr(34, -1)
+		}
+		if seq == 0 {
+			seq = -1
+		}
+		evs = append(evs, c01ev{n: eng.LF.InN[i], in: seq})
+	}
+	eng.LF.mu.Unlock()
 	sort.Slice(evs, func(i, j int) bool { return evs[i].n < evs[j].n })
+	lastInSeq, lastCbSeq := -1, -1
 	T := 1
 	lastDelivered := 0 // highest MsgSeqNum handed to FromApp in this epoch
 	pendingIncr := -1  // FromApp at T=t seen; the next mover of T must be Incr to t+1
 	for _, e := range evs {
+		if e.in != 0 {
+			lastInSeq = e.in
+			continue
+		}
 		if e.app != nil {
 			a := e.app
 			if a.Kind == "FromApp" || a.Kind == "FromAdmin" {
+				lastCbSeq = a.Seq
 				if pendingIncr >= 0 && a.Kind == "FromApp" {
 					env.Violate("C01/no-advance", "FromApp at expected number %d was followed by another FromApp (seq %d) before the expected number advanced", pendingIncr, a.Seq)
 				}
@@ -75,6 +95,11 @@ func CheckC01(env *Env, eng *Engine) (deliveries int) {
 			}
 			if c.A != T+1 {
 				env.Violate("C01/expected-number-tracking", "IncrTarget yields %d from %d", c.A, T)
+			}
+			// the number advances for the message that carries it (just received, or kept earlier and handed
+			// over now), never on behalf of a message with another number
+			if T != lastInSeq && T != lastCbSeq {
+				env.Violate("C01/advance-for-other-number", "expected number advanced from %d although the message being processed carries %d (last callback for %d)", T, lastInSeq, lastCbSeq)
 			}
 			pendingIncr = -1
 			T = c.A
